@@ -482,16 +482,22 @@ Finish ==
   /\ sig' = SigOfStore(store)
   /\ UNCHANGED <<ctr, off, prog, store, pc>>
 
-Next == \/ \E o \in {"mesh", "index"} : Write(Ins(o, 0, 0, 0))
-        \/ \E o \in {"const", "coef", "vcoef", "tcoef", "geo", "zeromul", "var", "grad"}, x \in 1..Len(store) :
-              Write(Ins(o, x, 0, 0))
-        \/ \E o \in {"scoef", "idx", "sum", "prod", "integ"}, x \in 1..Len(store), y \in 1..Len(store) :
-              Write(Ins(o, x, y, 0))
-        \/ \E o \in {"cond", "idx2"}, x \in 1..Len(store), y \in 1..Len(store), z \in 1..Len(store) :
-              Write(Ins(o, x, y, z))
-        \/ \E x \in 1..Len(store), z \in {1, 2} : Write(Ins("comp", x, 0, z))
+\* the instructions of a set that the caps still allow (evaluated once per state: the guards that do
+\* not depend on the operands come before the enumeration of the operands)
+Open(O) == {o \in O : CountOps(prog, o) < Caps[o]}
+Pos == 1..Len(store)
+
+Next == \/ /\ phase = "script" /\ Len(prog) < MaxSteps /\ CountOps(prog, "integ") = 0
+           /\ \/ \E o \in Open({"mesh", "index"}) : Write(Ins(o, 0, 0, 0))
+              \/ \E o \in Open({"const", "coef", "vcoef", "tcoef", "geo", "zeromul", "var", "grad"}), x \in Pos :
+                    Write(Ins(o, x, 0, 0))
+              \/ \E o \in Open({"scoef", "idx", "sum", "prod", "integ"}), x \in Pos, y \in Pos :
+                    Write(Ins(o, x, y, 0))
+              \/ \E o \in Open({"cond", "idx2"}), x \in Pos, y \in Pos, z \in Pos : Write(Ins(o, x, y, z))
+              \/ \E o \in Open({"comp"}), x \in Pos, z \in {1, 2} : Write(Ins(o, x, 0, z))
         \/ Close
-        \/ \E K \in Kinds : \E n \in Offsets \cup PlacedOffsets(prog, K) : Bump(K, n)
+        \/ /\ phase = "history"
+           /\ \E K \in Kinds : \E n \in Offsets \cup PlacedOffsets(prog, K) : Bump(K, n)
         \/ Start \/ Step \/ Finish
 
 Spec == Init /\ [][Next]_vars
